@@ -68,7 +68,15 @@ type attPlan struct {
 	// "interleaved" chunks of all files round-robin, then the 0x1212s; "late-1212" the 0x1212 of a file after the next file's 0x1211;
 	// "crossed-1212" resends of one file followed by another incomplete file's 0x1212 and only then the file's own
 	Order string `json:"order,omitempty"`
+	// ReAnnounce > 0 (sequential order only): after the first file's 0x1211 and its first ReAnnounce chunks the terminal
+	// sends its 0x1210 once more (a retry) and starts the whole upload again from the first file. Every chunk sent before
+	// the retry is sent again after it and no 0x1212 precedes it, so the expected answers do not depend on whether a
+	// server keeps or forgets what it held before the retry.
+	ReAnnounce int `json:"reannounce_after_chunks,omitempty"`
 }
+
+// files larger than this are "sparse" in the plans: announced with their full size, only a few chunks sent
+const attSparseFrom = 1 << 22
 
 func attContent(seed uint64, n int) []byte {
 	return core.NewRand(seed, "attfile", 0).Bytes(n)
@@ -92,6 +100,11 @@ func attBuild(p *attPlan) *attBuilt {
 	phone := ref.PhoneString(bcd)
 	_ = phone
 	for _, f := range p.Files {
+		if f.Size > attSparseFrom {
+			// a huge file of which only a few chunks are ever sent: content is defined per chunk offset, never materialised
+			b.files = append(b.files, att.File{Name: core.UnHex(f.Name), Size: uint32(f.Size)})
+			continue
+		}
 		b.files = append(b.files, att.File{Name: core.UnHex(f.Name), Size: uint32(f.Size), Content: attContent(f.ContSd, f.Size)})
 	}
 	serial := p.Serial0
@@ -113,7 +126,13 @@ func attBuild(p *attPlan) *attBuilt {
 	got := make([][]ref.Range, len(p.Files))
 	chunk := func(i int, c [2]int) {
 		af := b.files[i]
-		data := append(att.ChunkHeader(d, af.Name, uint32(c[0]), uint32(c[1])), af.Content[c[0]:c[0]+c[1]]...)
+		var content []byte
+		if af.Content == nil && int(af.Size) > attSparseFrom {
+			content = attContent(p.Files[i].ContSd+uint64(c[0]), c[1])
+		} else {
+			content = af.Content[c[0] : c[0]+c[1]]
+		}
+		data := append(att.ChunkHeader(d, af.Name, uint32(c[0]), uint32(c[1])), content...)
 		b.units = append(b.units, att.Unit{Data: data, File: i, Off: uint32(c[0]), Len: uint32(c[1])})
 		got[i] = append(got[i], ref.Range{Off: uint32(c[0]), Len: uint32(c[1])})
 		if b.completeAt[i] < 0 && len(ref.MissingRanges(af.Size, got[i])) == 0 {
@@ -228,6 +247,20 @@ func attBuild(p *attPlan) *attBuilt {
 			resend(n - 1)
 		}
 	default:
+		if m := p.ReAnnounce; m > 0 && len(p.Files) > 0 && m < len(p.Files[0].Chunks) {
+			c1211(0)
+			for _, c := range p.Files[0].Chunks[:m] {
+				chunk(0, c)
+			}
+			s := serial
+			ctrl(0x1210, att.Body1210(d, core.UnHex(p.TermID), core.UnHex(p.AlarmID), b.files), -1)
+			b.expect = append(b.expect, general(0x1210, s))
+			for i := range got {
+				got[i] = nil
+				b.completeAt[i] = -1
+			}
+			// the chunks sent before the retry come first again, in the same order
+		}
 		for i, f := range p.Files {
 			c1211(i)
 			for _, c := range f.Chunks {
@@ -260,7 +293,7 @@ func attBuild(p *attPlan) *attBuilt {
 func attWrites(p *attPlan, b *attBuilt) [][]byte {
 	cuts := append([]int{}, p.Cuts...)
 	if p.Mode == "unit-per-write" || (len(cuts) == 0 && p.Mode == "") {
-		cuts = append([]int{}, b.ends...)
+		cuts = append(cuts, b.ends...)
 	}
 	sort.Ints(cuts)
 	var writes [][]byte
@@ -491,7 +524,44 @@ func attGenPlan(g gen.G, idx int, gaps bool) *attPlan {
 	if nf > 1 {
 		p.Order = core.Pick(g.Rand, []string{"", "", "announce-first", "interleaved", "late-1212", "crossed-1212"})
 	}
+	escHeavy := !many && g.Chance(1, 10)
+	if escHeavy {
+		// an announcement whose frame is far longer on the wire than its 1023-byte body: many files with names made of the
+		// bytes that need escaping (0x7e 0x7d) — a legal frame of up to ~2 KiB between its delimiters
+		nf = 10 + g.Intn(7)
+		maxName = 50 // 16 x (49 + 5) + sign and identifiers stays below the 1023-byte body limit in every dialect
+	}
 	for i := 0; i < nf; i++ {
+		if !many && !escHeavy && g.Chance(1, 14) {
+			// sparse giant: a file of 16 MiB .. 4 GiB-1 of which a few chunks arrive, at offsets whose high bytes are in use
+			// (0x01000000, 0x7fffffff, 0x80000000, 0xffffff00): it never completes, every 0x1212 lists what is missing
+			size := core.Pick(g.Rand, []int{1<<24 + 5000, 1 << 25, 1<<31 - 1, 1 << 31, 1<<31 + 4096, 1<<32 - 1, 1<<24 + g.Intn(1<<30)})
+			nameBytes := attName(g, 40, false, i)
+			budget -= len(nameBytes) + 5
+			f := attFile{Name: core.Hex(nameBytes), Size: size, ContSd: g.U64(), Type: byte(g.Intn(5))}
+			offs := []int{0, 1<<24 - 100, 1 << 24, 1<<24 + 1000, 1<<31 - 50, 1 << 31, 1<<32 - 256, size - 100, size - 1}
+			seen := map[int]bool{}
+			for k := 0; k < 1+g.Intn(4); k++ {
+				o := offs[g.Intn(len(offs))]
+				l := 1 + g.Intn(200)
+				if o < 0 || o >= size {
+					continue
+				}
+				if o+l > size {
+					l = size - o
+				}
+				// keep the chunks pairwise disjoint: one chunk per 4 KiB neighbourhood
+				if seen[o>>12] || seen[(o+l)>>12] {
+					continue
+				}
+				seen[o>>12], seen[(o+l)>>12] = true, true
+				f.Chunks = append(f.Chunks, [2]int{o, l})
+			}
+			if len(f.Chunks) > 0 {
+				p.Files = append(p.Files, f)
+				continue
+			}
+		}
 		cs := 1 + g.Intn(4096)
 		if g.Chance(1, 3) || many {
 			cs = 1 + g.Intn(64)
@@ -508,6 +578,14 @@ func attGenPlan(g gen.G, idx int, gaps bool) *attPlan {
 			mn = 8
 		}
 		nameBytes := attName(g, mn, marker && g.Bool(), i)
+		if escHeavy {
+			nameBytes = make([]byte, 30+g.Intn(maxName-30))
+			for k := range nameBytes {
+				nameBytes[k] = []byte{0x7e, 0x7d, 0x7e, 0x02, 0x01}[g.Intn(5)]
+			}
+			nameBytes[0] = byte(0x41 + i) // distinct names; no leading/trailing NUL
+			nameBytes[len(nameBytes)-1] = 0x7e
+		}
 		budget -= len(nameBytes) + 5
 		f := attFile{Name: core.Hex(nameBytes), Size: size, ContSd: g.U64(), Type: byte(g.Intn(5))}
 		if g.Chance(1, 2) {
@@ -560,6 +638,25 @@ func attGenPlan(g gen.G, idx int, gaps bool) *attPlan {
 						f.Resend = append(f.Resend, [2]int{int(m.Off), int(m.Len)})
 					}
 				}
+				if g.Chance(1, 4) {
+					// re-split resend: the terminal resends in its own blocks — each listed range together with the chunk
+					// right before it, as ONE block that starts at that chunk's offset (same offset, greater length) and ends
+					// where the range ends. Blocks never reach into a chunk held at another offset.
+					var got []ref.Range
+					for _, k := range keep {
+						got = append(got, ref.Range{Off: uint32(k[0]), Len: uint32(k[1])})
+					}
+					f.Resend = nil
+					for _, m := range ref.MissingRanges(uint32(size), got) {
+						blk := [2]int{int(m.Off), int(m.Len)}
+						for _, k := range keep {
+							if k[0]+k[1] == int(m.Off) {
+								blk = [2]int{k[0], k[1] + int(m.Len)}
+							}
+						}
+						f.Resend = append(f.Resend, blk)
+					}
+				}
 				p.Files = append(p.Files, f)
 				continue
 			}
@@ -572,11 +669,26 @@ func attGenPlan(g gen.G, idx int, gaps bool) *attPlan {
 		f.PostDup = g.Chance(1, 4)
 		p.Files = append(p.Files, f)
 	}
+	if p.Order == "" && len(p.Files[0].Chunks) > 1 && g.Chance(1, 5) {
+		p.ReAnnounce = 1 + g.Intn(len(p.Files[0].Chunks)-1)
+	}
 	return p
 }
 
 func attPartition(g gen.G, p *attPlan, mode int) {
 	b := attBuild(p)
+	defer func() {
+		// a control frame longer than 1100 bytes on the wire: make sure some write ends inside it beyond byte 1047 (the size
+		// of an unescaped maximal frame), so that the server sees > 1047 buffered bytes without a closing delimiter
+		start := 0
+		for i, u := range b.units {
+			if u.Ctrl && b.ends[i]-start > 1100 && g.Bool() {
+				p.Cuts = append(p.Cuts, start+1048+g.Intn(b.ends[i]-start-1050))
+				sort.Ints(p.Cuts)
+			}
+			start = b.ends[i]
+		}
+	}()
 	switch mode {
 	case 0:
 		p.Mode = "unit-per-write"
